@@ -52,7 +52,7 @@ theorem cond_induct {P : Run N K W → Prop} {b : Bool} {f : Run N K W → Run N
 theorem stepItem_eq (r : Run N K W) (it : Item N) :
     stepItem cfg L o fail r it =
       if r.err.isSome then r else
-      if skip o (flagsOf cfg r.st it) then r else
+      if skip o (flagsOf cfg r.st it) then { r with st := register it.s it.d r.st } else
       cond (needTest o (flagsOf cfg r.st it)) (predictSave cfg L fail (strategyFit L it) it .test)
         (cond (needTrain o (flagsOf cfg r.st it)) (predictSave cfg L fail (strategyFit L it) it .train)
           (cond (needStrat o (flagsOf cfg r.st it)) (saveStrat cfg it (strategyFit L it))
@@ -63,6 +63,7 @@ call, and is kept by the three possible saves *when the code's conditions for th
 evaluated on the store as it was at the top of the iteration), holds after the iteration. -/
 theorem stepItem_induct (P : Run N K W → Prop) (r : Run N K W) (it : Item N)
     (h0 : P r)
+    (hK : P r → P { r with st := register it.s it.d r.st })
     (hC : ∀ c r', P r' → P (callEst fail c r'))
     (hS : needStrat o (flagsOf cfg r.st it) = true → ∀ r', P r' → P (saveStrat cfg it (strategyFit L it) r'))
     (hTr : needTrain o (flagsOf cfg r.st it) = true → ∀ r', P r' →
@@ -74,7 +75,7 @@ theorem stepItem_induct (P : Run N K W → Prop) (r : Run N K W) (it : Item N)
   split
   · exact h0
   · split
-    · exact h0
+    · exact hK h0
     · apply cond_induct
       · intro hb hp; exact hTe hb _ (hC _ _ hp)
       · apply cond_induct
@@ -91,11 +92,13 @@ theorem needStrat_saveF {f : Flags} (h : needStrat o f = true) : o.saveF = true 
 
 /-- Store invariants: kept by one iteration if kept by the (option-permitted) writes of this item. -/
 theorem stepItem_st (Q : St N K W → Prop) (r : Run N K W) (it : Item N)
+    (hR : ∀ st, Q st → Q (register it.s it.d st))
     (hS : o.saveF = true → cfg.disk = true → ∀ st, Q st → Q (writeStrat cfg it (strategyFit L it) st))
     (hP : ∀ part, (part = .train → o.pot = true) → ∀ st, Q st →
       Q (writeRec cfg it part (predictPart L (strategyFit L it) it part) st))
     (h : Q r.st) : Q (stepItem cfg L o fail r it).st := by
   apply stepItem_induct cfg L o fail (fun r' => Q r'.st) r it h
+  · intro hq; exact hR _ hq
   · intro c r' hr'; rw [callEst_st]; exact hr'
   · intro hb r' hr'
     rcases saveStrat_st cfg it (strategyFit L it) r' with e | ⟨hd, e⟩
@@ -124,6 +127,7 @@ theorem runItems_cons (a : Item N) (t : List (Item N)) (r : Run N K W) :
 
 /-- Store invariants over the whole loop. -/
 theorem runItems_st (Q : St N K W → Prop) (items : List (Item N))
+    (hR : ∀ it ∈ items, ∀ st, Q st → Q (register it.s it.d st))
     (hS : ∀ it ∈ items, o.saveF = true → cfg.disk = true → ∀ st, Q st →
       Q (writeStrat cfg it (strategyFit L it) st))
     (hP : ∀ it ∈ items, ∀ part, (part = .train → o.pot = true) → ∀ st, Q st →
@@ -133,10 +137,17 @@ theorem runItems_st (Q : St N K W → Prop) (items : List (Item N))
   | nil => exact h
   | cons a t ih =>
     rw [runItems_cons]
-    apply ih (fun it hit => hS it (List.mem_cons_of_mem _ hit)) (fun it hit => hP it (List.mem_cons_of_mem _ hit))
-    exact stepItem_st cfg L o fail Q r a (hS a List.mem_cons_self) (hP a List.mem_cons_self) h
+    apply ih (fun it hit => hR it (List.mem_cons_of_mem _ hit)) (fun it hit => hS it (List.mem_cons_of_mem _ hit))
+      (fun it hit => hP it (List.mem_cons_of_mem _ hit))
+    exact stepItem_st cfg L o fail Q r a (hR a List.mem_cons_self) (hS a List.mem_cons_self) (hP a List.mem_cons_self) h
 
 /-! ### effect of the two writes on the maps -/
+
+@[simp] theorem register_recs (s d : N) (st : St N K W) : (register s d st).recs = st.recs := rfl
+@[simp] theorem register_strats (s d : N) (st : St N K W) : (register s d st).strats = st.strats := rfl
+@[simp] theorem register_master (s d : N) (st : St N K W) : (register s d st).master = st.master := rfl
+@[simp] theorem register_regS (s d : N) (st : St N K W) : (register s d st).regS = addNew s st.regS := rfl
+@[simp] theorem register_regD (s d : N) (st : St N K W) : (register s d st).regD = addNew d st.regD := rfl
 
 @[simp] theorem writeRec_recs (it : Item N) (p : Part) (c : Content) (st : St N K W) :
     (writeRec cfg it p c st).recs = put (cfg.rkey it.s it.d p it.fold) ⟨c, st.clock, it.s, it.d⟩ st.recs := rfl
